@@ -58,6 +58,10 @@ pub trait Engine: Sync + Send {
     fn exhaustive_note(&self, _quick: bool) -> Option<String> {
         None
     }
+    /// Execute every run on a fresh OS thread (clean thread-local state per run).
+    fn fresh_thread_per_run(&self) -> bool {
+        false
+    }
     /// Counters that must be non-zero after a full tier (reach probes).
     fn required_probes(&self) -> Vec<&'static str> {
         vec![]
